@@ -180,11 +180,11 @@ func (c *chain) finalize() error {
 	return nil
 }
 
-// fork replaces the blocks from..tip by new ones with the given contents
+// fork replaces the blocks from..tip by new ones and appends one more block (a fork wins only when it is longer)
 func (c *chain) fork(from uint64, contents []int) error {
 	c.mu.Lock()
 	defer c.mu.Unlock()
-	if from <= c.fin || from > c.tip() || uint64(len(contents)) != c.tip()-from+1 {
+	if from <= c.fin || from > c.tip() || uint64(len(contents)) != c.tip()-from+2 {
 		return fmt.Errorf("fork at %d with %d blocks: tip %d finalized %d", from, len(contents), c.tip(), c.fin)
 	}
 	c.nforks++
@@ -192,7 +192,11 @@ func (c *chain) fork(from uint64, contents []int) error {
 	for i, ct := range contents {
 		n := from + uint64(i)
 		b := c.build(n, c.nforks, c.blocks[n-1], ct)
-		c.blocks[n] = b
+		if n < uint64(len(c.blocks)) {
+			c.blocks[n] = b
+		} else {
+			c.blocks = append(c.blocks, b)
+		}
 		nb = append(nb, b)
 	}
 	c.emit(tr.M{"ev": "chain", "op": "fork", "from": from, "tip": c.tip(), "fin": c.fin, "blocks": c.describe(nb)})
